@@ -34,7 +34,7 @@ Fixpoint drain (n : nat) (q : list (list N)) : list (list N) :=
 Definition send (d : dev) (req : list N) : dev :=
   {| d_mlen := d_mlen d; d_wlen := d_wlen d; d_pad := d_pad d;
      d_q := drain 10 (d_q d) ++ hd [] (d_per d); d_per := tl (d_per d);
-     d_reqs := d_reqs d ++ [pad_to (d_wlen d) 0 req]; d_counter := next_counter (d_counter d) |}.
+     d_reqs := d_reqs d ++ [pad_to (Nat.max (d_wlen d) (length req)) 0 req]; d_counter := next_counter (d_counter d) |}.
 
 (* wait_for_mailbox_response *)
 Definition recv (d : dev) : res cerr (list N * dev) :=
@@ -83,18 +83,24 @@ Definition validate (k : rkind) (addr sub : N) : bool :=
 
 (* the headers every response is read through first *)
 Definition triage (k : rkind) (r : list N) : res cerr (list N) :=
+  (* MailboxAndCoeHeader::unpack_from_slice: 8 bytes or ReadBufferTooShort, then the enums *)
+  if (length r <? 8)%nat then Err CWireShort else
   let? _ := ev enum_Priority (b r 4 / 64) in
   let? mt := ev enum_MailboxType (b r 5 mod 16) in
   let? service := ev enum_CoeService (b r 7 / 16) in
   (* an emergency message: error code and register follow the CoE header directly *)
   if service =? 1 then (if (length r <? 16)%nat then Err CWireShort else Err (CEmergency (le16 r 8) (b r 10)))
   else
+  (* HeadersRaw::unpack_from_slice: 12 bytes *)
+  if (length r <? 12)%nat then Err CWireShort else
   let? command := ev enum_CoeCommand (b r 8 / 32) in
   let addr := le16 r 9 in let sub := b r 11 in
   if command =? 4 then
     if (length r <? 16)%nat then Err CWireShort else
     let? code := ev enum_CoeAbortCode (le32 r 12) in Err (CAborted code addr sub)
   else if negb (mt =? 3) || negb (validate k addr sub) then Err (CInvalidResponse addr sub)
+  (* R::unpack_from_slice: the request type's own header length *)
+  else if (length r <? plen k)%nat then Err CWireShort
   else Ok (skipn (plen k) r).
 
 (* the client's operations run over the device: result and the device afterwards (also on errors,
@@ -211,6 +217,8 @@ Fixpoint info_loop (fuel : nat) (first : bool) (acc : list N) : M (list N) :=
   | O => fun d => (Hang, d)
   | S f =>
     do r <- m_recv;
+    (* ObjectDescriptionListResponse::unpack_from_slice: 12 bytes or ReadBufferTooShort *)
+    if (length r <? 12)%nat then fail CWireShort else
     do _ <- lift (ev enum_Priority (b r 4 / 64));
     do _ <- lift (ev enum_MailboxType (b r 5 mod 16));
     do _ <- lift (ev enum_CoeService (b r 7 / 16));
